@@ -11,7 +11,7 @@ PROPERTY_GROUPS = {
     'C12': ['mps'],
     'C13': ['httprange'],
     'C14': ['events', 'scte35', 'mp4'],
-    'C16': ['events', 'bufreader', 'httprange', 'rep', 'timing', 'mps'],
+    'C16': ['events', 'bufreader', 'httprange', 'rep', 'timing', 'mps', 'errors'],
     'C19': ['dt'],
     'C20': ['bufreader'],
 }
